@@ -1,0 +1,21 @@
+//go:build verif
+
+// Contracts for the transaction Merkle proofs of the stateless client (C19). Comment-only.
+package merkle
+
+//@ ghost var GCmtVerifyOK int
+
+//@ func Verify
+//@   props C19
+//@   modifies GCmtVerifyOK
+//@   trustframe
+//@   precall crypto/merkle\.Proof\)\.Verify$ :: argIs(0, rootHash) && argIs(1, item)
+//@   ensures err == nil ==> GCmtVerifyOK > old(GCmtVerifyOK)
+//@   note a proof is accepted only if CometBFT's proof verifier accepted it (counted) for exactly the given root hash and the given item: there is no path to success that does not bind the item to the root (seed C19_j added a shortcut for single-leaf trees that compared the proof's own leaf hash with the root and never looked at the item)
+
+//@ func VerifyTransaction
+//@   props C19
+//@   bodyonly
+//@   precall merkle\.Verify$ :: argIs(0, proof) && argIs(1, rootHash) && argIs(2, hash)
+//@   ensures err == nil ==> GCmtVerifyOK > old(GCmtVerifyOK)
+//@   note the item checked is the hash of the transaction bytes handed in
